@@ -1,4 +1,6 @@
 #!/bin/sh
+# the seed `vp check` exports is 1: use it unless told otherwise
+VERIF_SEED=${VERIF_SEED:-1}; export VERIF_SEED
 # Runs every registered quick check on the current tree (evidence files are rewritten).
 cd "$(dirname "$0")/.."
 rc=0
